@@ -80,6 +80,10 @@ def run(tier, seed, model_ok=True):
     # incl. heap-allocated containers re-created with a rank-dependent allocator history: every call must return, no assertion
     from props import c02
     c02.dtor_runs(res, "quick", seed)
+    # the blocking collectives return for every serialised size (1-byte steps around the helpers' internal boundaries)
+    if tier != "quick":
+        from props import c09
+        c09.run_size_sweep(res, "quick", seed, model_ok)
     unknown = [i for i, f in enumerate(res.oracle_failures) if not f["signature"].startswith("deadlock coll(")]
     if unknown:
         i = unknown[0]
